@@ -118,6 +118,9 @@ func (p *Parser) parseComparisonExpression() (ast.Expression, error) {
 		// like: price BETWEEN price * 0.9 AND price * 1.1
 		lower, err := p.parseStringConcatExpression()
 		if err != nil {
+			if isRecursionLimit(err) {
+				return nil, err // a limit violation keeps its own code
+			}
 			return nil, goerrors.InvalidSyntaxError(
 				fmt.Sprintf("failed to parse BETWEEN lower bound: %v", err),
 				p.currentLocation(),
@@ -134,6 +137,9 @@ func (p *Parser) parseComparisonExpression() (ast.Expression, error) {
 		// Parse upper bound - use parseStringConcatExpression to support complex expressions
 		upper, err := p.parseStringConcatExpression()
 		if err != nil {
+			if isRecursionLimit(err) {
+				return nil, err // a limit violation keeps its own code
+			}
 			return nil, goerrors.InvalidSyntaxError(
 				fmt.Sprintf("failed to parse BETWEEN upper bound: %v", err),
 				p.currentLocation(),
@@ -157,6 +163,9 @@ func (p *Parser) parseComparisonExpression() (ast.Expression, error) {
 		// Parse pattern (an expression such as 'x' || '%', not just a primary)
 		pattern, err := p.parseStringConcatExpression()
 		if err != nil {
+			if isRecursionLimit(err) {
+				return nil, err // a limit violation keeps its own code
+			}
 			return nil, goerrors.InvalidSyntaxError(
 				fmt.Sprintf("failed to parse LIKE pattern: %v", err),
 				p.currentLocation(),
@@ -178,6 +187,9 @@ func (p *Parser) parseComparisonExpression() (ast.Expression, error) {
 		p.advance()
 		pattern, err := p.parsePrimaryExpression()
 		if err != nil {
+			if isRecursionLimit(err) {
+				return nil, err // a limit violation keeps its own code
+			}
 			return nil, goerrors.InvalidSyntaxError(
 				fmt.Sprintf("failed to parse REGEXP pattern: %v", err),
 				p.currentLocation(),
@@ -207,6 +219,9 @@ func (p *Parser) parseComparisonExpression() (ast.Expression, error) {
 			// Parse subquery
 			subquery, err := p.parseSubquery()
 			if err != nil {
+				if isRecursionLimit(err) {
+					return nil, err // a limit violation keeps its own code
+				}
 				return nil, goerrors.InvalidSyntaxError(
 					fmt.Sprintf("failed to parse IN subquery: %v", err),
 					p.currentLocation(),
@@ -232,6 +247,9 @@ func (p *Parser) parseComparisonExpression() (ast.Expression, error) {
 		for {
 			value, err := p.parseExpression()
 			if err != nil {
+				if isRecursionLimit(err) {
+					return nil, err // a limit violation keeps its own code
+				}
 				return nil, goerrors.InvalidSyntaxError(
 					fmt.Sprintf("failed to parse IN value: %v", err),
 					models.Location{Line: 0, Column: 0},
@@ -311,6 +329,9 @@ func (p *Parser) parseComparisonExpression() (ast.Expression, error) {
 			// Parse subquery
 			subquery, err := p.parseSubquery()
 			if err != nil {
+				if isRecursionLimit(err) {
+					return nil, err // a limit violation keeps its own code
+				}
 				return nil, goerrors.InvalidSyntaxError(
 					fmt.Sprintf("failed to parse %s subquery: %v", quantifier, err),
 					models.Location{Line: 0, Column: 0},
@@ -786,6 +807,9 @@ func (p *Parser) parsePrimaryExpression() (ast.Expression, error) {
 			// Parse subquery
 			subquery, err := p.parseSubquery()
 			if err != nil {
+				if isRecursionLimit(err) {
+					return nil, err // a limit violation keeps its own code
+				}
 				return nil, goerrors.InvalidSyntaxError(
 					fmt.Sprintf("failed to parse subquery: %v", err),
 					models.Location{Line: 0, Column: 0},
@@ -856,6 +880,9 @@ func (p *Parser) parsePrimaryExpression() (ast.Expression, error) {
 		// Parse the subquery
 		subquery, err := p.parseSubquery()
 		if err != nil {
+			if isRecursionLimit(err) {
+				return nil, err // a limit violation keeps its own code
+			}
 			return nil, goerrors.InvalidSyntaxError(
 				fmt.Sprintf("failed to parse EXISTS subquery: %v", err),
 				models.Location{Line: 0, Column: 0},
@@ -887,6 +914,9 @@ func (p *Parser) parsePrimaryExpression() (ast.Expression, error) {
 
 			subquery, err := p.parseSubquery()
 			if err != nil {
+				if isRecursionLimit(err) {
+					return nil, err // a limit violation keeps its own code
+				}
 				return nil, goerrors.InvalidSyntaxError(
 					fmt.Sprintf("failed to parse NOT EXISTS subquery: %v", err),
 					models.Location{Line: 0, Column: 0},
@@ -963,6 +993,9 @@ func (p *Parser) parseCaseExpression() (*ast.CaseExpression, error) {
 		// This is a simple CASE - parse the value expression
 		value, err := p.parseExpression()
 		if err != nil {
+			if isRecursionLimit(err) {
+				return nil, err // a limit violation keeps its own code
+			}
 			return nil, goerrors.InvalidSyntaxError(
 				fmt.Sprintf("failed to parse CASE value: %v", err),
 				models.Location{Line: 0, Column: 0},
@@ -979,6 +1012,9 @@ func (p *Parser) parseCaseExpression() (*ast.CaseExpression, error) {
 		// Parse the condition/value expression
 		condition, err := p.parseExpression()
 		if err != nil {
+			if isRecursionLimit(err) {
+				return nil, err // a limit violation keeps its own code
+			}
 			return nil, goerrors.InvalidSyntaxError(
 				fmt.Sprintf("failed to parse WHEN condition: %v", err),
 				models.Location{Line: 0, Column: 0},
@@ -995,6 +1031,9 @@ func (p *Parser) parseCaseExpression() (*ast.CaseExpression, error) {
 		// Parse the result expression
 		result, err := p.parseExpression()
 		if err != nil {
+			if isRecursionLimit(err) {
+				return nil, err // a limit violation keeps its own code
+			}
 			return nil, goerrors.InvalidSyntaxError(
 				fmt.Sprintf("failed to parse THEN result: %v", err),
 				models.Location{Line: 0, Column: 0},
@@ -1023,6 +1062,9 @@ func (p *Parser) parseCaseExpression() (*ast.CaseExpression, error) {
 
 		elseResult, err := p.parseExpression()
 		if err != nil {
+			if isRecursionLimit(err) {
+				return nil, err // a limit violation keeps its own code
+			}
 			return nil, goerrors.InvalidSyntaxError(
 				fmt.Sprintf("failed to parse ELSE result: %v", err),
 				models.Location{Line: 0, Column: 0},
@@ -1322,6 +1364,9 @@ func (p *Parser) parseArrayAccessExpression(arrayExpr ast.Expression) (ast.Expre
 			if !p.isType(models.TokenTypeRBracket) {
 				end, err := p.parseExpression()
 				if err != nil {
+					if isRecursionLimit(err) {
+						return nil, err // a limit violation keeps its own code
+					}
 					return nil, goerrors.InvalidSyntaxError(
 						fmt.Sprintf("failed to parse array slice end: %v", err),
 						p.currentLocation(),
@@ -1349,6 +1394,9 @@ func (p *Parser) parseArrayAccessExpression(arrayExpr ast.Expression) (ast.Expre
 		// Parse first expression (index or slice start)
 		firstExpr, err := p.parseExpression()
 		if err != nil {
+			if isRecursionLimit(err) {
+				return nil, err // a limit violation keeps its own code
+			}
 			return nil, goerrors.InvalidSyntaxError(
 				fmt.Sprintf("failed to parse array index/slice: %v", err),
 				p.currentLocation(),
@@ -1365,6 +1413,9 @@ func (p *Parser) parseArrayAccessExpression(arrayExpr ast.Expression) (ast.Expre
 			if !p.isType(models.TokenTypeRBracket) {
 				end, err := p.parseExpression()
 				if err != nil {
+					if isRecursionLimit(err) {
+						return nil, err // a limit violation keeps its own code
+					}
 					return nil, goerrors.InvalidSyntaxError(
 						fmt.Sprintf("failed to parse array slice end: %v", err),
 						p.currentLocation(),
